@@ -309,11 +309,11 @@ type Trace struct {
 	// LastStepChange: time (unix ns) of the last change applied to an object during the Steps phase
 	LastStepChange map[string]int64
 	// FinalTicksAt: time at which the harness injected its final ticks (0 if none yet)
-	FinalTicksAt int64
-	Restarted    bool
+	FinalTicksAt     int64
+	Restarted        bool
 	RestartIndex     int
 	ClusterAtRestart map[string]int
-	Problems     []string
+	Problems         []string
 }
 
 // Run executes the scenario.
@@ -377,9 +377,11 @@ func Run(c Case) (*Trace, error) {
 					return err
 				}
 			}
+			prev := tr.Cluster[k]
 			tr.Cluster[k] = st.State
 			tr.History[k] = append(tr.History[k], st.State)
-			if stepsPhase {
+			if stepsPhase && (!exists || prev != st.State) {
+				// (an update that leaves the object as it is changes nothing a binding could report)
 				tr.LastStepChange[k] = time.Now().UnixNano()
 			}
 		case "delete":
